@@ -74,6 +74,8 @@ bool splinetable<Alloc>::write_key(const char* key, const T& value){
 	if (reservedFitsKeyword(key))
 		throw std::runtime_error("Cannot set key with reserved name "+std::string(key));
 	size_t keylen = strlen(key) + 1;
+	if(keylen==1)
+		throw std::runtime_error("FITS header keywords must not be empty");
 	size_t maxdatalen=68; //valid for short keys
 	if(keylen<=9){ //up to 8 bytes of data
 		for(size_t i=0; i<keylen-1; i++){
@@ -113,7 +115,9 @@ bool splinetable<Alloc>::write_key(const char* key, const T& value){
 	size_t valuelen = valuedata.size() + 1;
 	//For normal (short) keys, we get up to 68 bytes of storage, but for longer keywords
 	//the 'HIERARCH Keyword Convention' kicks in and limits us further
-	if(valuelen-1>maxdatalen){
+	//FITS represents a single quote inside a string by two, which count against the space on the card
+	size_t encodedlen = valuelen-1 + std::count(valuedata.begin(),valuedata.end(),'\'');
+	if(encodedlen>maxdatalen){
 		throw std::runtime_error("Value is too long to be stored as a FITS keyword ('"
 								 +valuedata+"' has length "+std::to_string(valuelen-1)
 								 +", but a maximum of "+std::to_string(maxdatalen)+
